@@ -61,7 +61,6 @@ Ltac tie_case :=
   match goal with
   | p : (_ * _)%type |- _ => destruct p
   | |- context [str_eqb ?l []] => is_var l; destruct l
-  | |- context [length ?l] => is_var l; destruct l
   | |- context [Z.ltb ?a ?b] => destruct (Z.ltb_spec a b)
   | |- context [Z.leb ?a ?b] => destruct (Z.leb_spec a b)
   | |- context [Z.eqb ?a ?b] => destruct (Z.eqb_spec a b)
@@ -73,7 +72,9 @@ Ltac tie_case :=
   end.
 Ltac tie_crush :=
   intros; tie_red; repeat (tie_case; tie_red);
-  try reflexivity; try congruence; try (exfalso; cbn [length] in *; lia).
+  try reflexivity; try congruence; try (exfalso; cbn [length] in *; lia);
+  try (match goal with H : context [length ?l] |- _ => is_var l; destruct l end;
+       cbn [length] in *; first [ reflexivity | exfalso; lia ]).
 
 (* replace the generated step function of the loop in the goal by the reference step [g] *)
 Ltac tie_fold g :=
@@ -170,6 +171,18 @@ Proof.
   - lia.
 Qed.
 
+(* the same count kept as "index of the last equal pair + 1" over enumerate(zip(..)) *)
+Definition ref_estep (c : Z) (x : Z * (str * str)) : Z * bool :=
+  if str_eqb (fst (snd x)) (snd (snd x)) then ((fst x + 1)%Z, false) else (c, true).
+Lemma forb_ecount p : forall s k,
+  py_forb ref_estep (py_enumerate k (combine p s)) k = (k + Z.of_nat (lcp p s))%Z.
+Proof.
+  induction p as [|x p IH]; intros [|y s] k; cbn [combine py_enumerate py_forb lcp]; try lia.
+  unfold ref_estep at 1. cbn [fst snd]. destruct (str_eqb x y).
+  - rewrite IH. lia.
+  - lia.
+Qed.
+
 Lemma rfold_ups start : forall rest ups,
   fold_left rstep start (rest, false, ups) = (rest, false, repeat dotdot (length start) ++ ups).
 Proof.
@@ -206,6 +219,16 @@ Proof.
   destruct (Z.ltb_spec (Z.of_nat n) 0); [lia|]. now rewrite Nat2Z.id.
 Qed.
 
+(* case analysis on the integer tests left in the goal (e.g. "if climbs < 0: climbs = 0") *)
+Ltac tie_zcases :=
+  rewrite ?Z.gtb_ltb, ?Z.geb_leb;
+  cbv beta iota zeta delta [negb andb orb];
+  repeat match goal with
+  | |- context [Z.ltb ?a ?b] => destruct (Z.ltb_spec a b)
+  | |- context [Z.leb ?a ?b] => destruct (Z.leb_spec a b)
+  | |- context [Z.eqb ?a ?b] => destruct (Z.eqb_spec a b)
+  end.
+
 Lemma tie_relpath path start :
   relpath_pure path start = py_of_parts (relpath (py_parts path) (py_parts start)).
 Proof.
@@ -215,10 +238,12 @@ Proof.
     tie_fold ref_rstep;
     rewrite <- relpath_pop_loop;
     destruct (fold_left ref_rstep _ _) as [a b]; reflexivity
-  | (* B *)
-    tie_forb ref_cstep;
-    rewrite forb_count, relpath_spec, list_mul_single;
-    f_equal; f_equal; [ f_equal; lia | apply slice_from_nat; lia ] ].
+  | (* B: the loop is the count [lcp]; the rest is arithmetic on lengths *)
+    first [ tie_forb ref_cstep; rewrite forb_count | tie_forb ref_estep; rewrite forb_ecount ];
+    rewrite relpath_spec;
+    tie_zcases;
+    rewrite ?list_mul_single;
+    (f_equal; f_equal; [ f_equal; lia | apply slice_from_nat; lia ]) ].
 Qed.
 
 (* ------------------------------------------------------------------ split_links *)
